@@ -19,7 +19,7 @@ func c06Values() []rx.Val {
 	for _, i := range ints {
 		v = append(v, rx.Int(i))
 	}
-	for _, s := range []string{"", "a", "ab", "b", "a.*", "(", "read"} {
+	for _, s := range []string{"", "a", "ab", "b", "a.*", "(", "read", "é", "日本a"} {
 		v = append(v, rx.Str(s))
 	}
 	for _, d := range []uint64{0, 1, 1 << 63, math.MaxUint64} {
@@ -221,10 +221,10 @@ func init() {
 		ID:        "C06",
 		Level:     "exploration",
 		Technique: "bounded-exhaustive enumeration of operator sequences and operand values on the real evaluator against a big-integer reference evaluator",
-		Rule:      "every unary and binary operator applied to every operand (pair) of a 49-value grid covering all types and 64-bit boundaries, literally and through bound variables; every (a∘b)∘c over the 14 boundary integers; every operator sequence up to length 3 (quick) / 4 (thorough) over a 28-symbol alphabet; stack-depth boundary cases. Non-trivial = the reference allows a value (well-typed, well-formed); distinct by the written expression.",
-		Assume:    []string{"Go regexp, strings and math/big are the trusted base of the reference evaluator", "outcome sets are widened only for ill-formed sets, sets of different element types and non-ASCII string length (DESIGN §4-C06)"},
+		Rule:      "every unary and binary operator applied to every operand (pair) of a 51-value grid covering all types, 64-bit boundaries and non-ASCII strings, literally and through bound variables; every (a∘b)∘c over the 14 boundary integers; every operator sequence up to length 3 (quick) / 5 (thorough) over a 28-symbol alphabet; stack-depth boundary cases. Non-trivial = the reference allows a value (well-typed, well-formed); distinct by the written expression.",
+		Assume:    []string{"Go regexp, strings and math/big are the trusted base of the reference evaluator", "outcome sets are widened only for ill-formed sets and sets of different element types (DESIGN §4-C06); the length of a string is the byte count of its UTF-8 encoding, as the operator table defines it"},
 		Spaces: func(c *sup.Ctx) []*sup.Space {
-			seqMax := sup.Pick(c, 3, 4)
+			seqMax := sup.Pick(c, 3, 5)
 			na := int64(len(c06Alphabet))
 			var seqSize int64
 			pow := int64(1)
